@@ -40,6 +40,16 @@ var (
 // written first; stdin may be empty. A generous watchdog kills a hung
 // process (reported as Timeout, never as a verdict by itself).
 func RunCLI(c *mon.Ctx, b Binary, args []string, stdin string, files map[string]string) CLIResult {
+	return runCLI(c, b, args, stdin, files, false)
+}
+
+// RunCLIDevNull runs the binary with its standard output connected to
+// /dev/null (a character device, like a terminal) instead of a pipe.
+func RunCLIDevNull(c *mon.Ctx, b Binary, args []string, stdin string, files map[string]string) CLIResult {
+	return runCLI(c, b, args, stdin, files, true)
+}
+
+func runCLI(c *mon.Ctx, b Binary, args []string, stdin string, files map[string]string, devNull bool) CLIResult {
 	dir := c.WorkDir
 	for name, content := range files {
 		if err := os.WriteFile(filepath.Join(dir, name), []byte(content), 0o644); err != nil {
@@ -55,6 +65,12 @@ func RunCLI(c *mon.Ctx, b Binary, args []string, stdin string, files map[string]
 	cmd.Stdin = strings.NewReader(stdin)
 	var so, se bytes.Buffer
 	cmd.Stdout, cmd.Stderr = &so, &se
+	if devNull {
+		if f, err := os.OpenFile(os.DevNull, os.O_WRONLY, 0); err == nil {
+			defer f.Close()
+			cmd.Stdout = f
+		}
+	}
 	if err := cmd.Start(); err != nil {
 		panic(err)
 	}
